@@ -7,11 +7,17 @@
 (*                                                                         *)
 (* Differences to KFold.tla (all checked by the TLC cross-check of         *)
 (* specs/XC_KFoldInd.tla: identical reachable state sets under the         *)
-(* projection that forgets the history variables):                         *)
+(* projection that forgets the history variables and re-tags the cells):   *)
 (*  - the buffers are functions  {1..n*w} -> Int  (Apalache type           *)
 (*    Int -> Int); for TLC such a function IS the sequence of KFold.tla;   *)
 (*    the domain 1..m with a symbolic m is written {p \in 1..C : p <= m}   *)
 (*    with the constant C = MaxN*MaxF, the form Apalache accepts;          *)
+(*  - a cell is tagged with its ORIGINAL FLAT POSITION (record cell (r,c)  *)
+(*    = r*f+c+1, target cell (r,c) = r*W+c+1) instead of 16r+c / 1000+4r+c *)
+(*    of KFold.tla: the KFold tags need (p-1) \div f and (p-1) % f with a  *)
+(*    symbolic divisor, on which z3 stalls (> 20 min for MaxN = 4, measured)*)
+(*    while position tags are division-free; the tag map is a bijection   *)
+(*    (XC_KFoldInd.Retag) and, unlike 16r+c, stays injective for f > 16;   *)
 (*  - the history variables trains/valids/acc and the copying fold()       *)
 (*    (mode "copy", which never touches the buffers) are not modelled;     *)
 (*    what the fit closure sees is stated as a state predicate instead     *)
@@ -74,14 +80,14 @@ vars == <<n, k, f, t, mode, nm, rbuf, tbuf, i, mi, pc>>
 -----------------------------------------------------------------------------
 Tw(tt)     == IF tt = 0 THEN 1 ELSE tt
 MaxW       == Tw(MaxT)
-RTag(r, c) == 16 * r + c
-TTag(r, c) == 1000 + 4 * r + c
+\* tag of cell (r, c), 0-based, of a buffer of row width w: its original flat position
+Tag(r, c, w) == r * w + c + 1
 
 \* 1..m for a symbolic m <= cap
 Pos(m, cap) == {p \in 1..cap : p <= m}
 
-RBuf0(nn, ff) == [p \in Pos(nn * ff, MaxN * MaxF) |-> RTag((p - 1) \div ff, (p - 1) % ff)]
-TBuf0(nn, ww) == [p \in Pos(nn * ww, MaxN * MaxW) |-> TTag((p - 1) \div ww, (p - 1) % ww)]
+RBuf0(nn, ff) == [p \in Pos(nn * ff, MaxN * MaxF) |-> p]
+TBuf0(nn, ww) == [p \in Pos(nn * ww, MaxN * MaxW) |-> p]
 
 \* the block exchange as a map on positions: block idx (length len) <-> block 0
 Sigma(p, idx, len) ==
@@ -155,9 +161,9 @@ Boundary == pc \in {"swapin", "yield", "eval", "done"}
 
 \* the buffers as a function of the control state
 RBufAt == IF Boundary THEN RBuf0(n, f)
-          ELSE [p \in Pos(n * f, MaxN * MaxF) |-> RTag((Sigma(p, i, Fs * f) - 1) \div f, (Sigma(p, i, Fs * f) - 1) % f)]
+          ELSE [p \in Pos(n * f, MaxN * MaxF) |-> Sigma(p, i, Fs * f)]
 TBufAt == IF Boundary THEN TBuf0(n, W)
-          ELSE [p \in Pos(n * W, MaxN * MaxW) |-> TTag((Sigma(p, i, Fs * W) - 1) \div W, (Sigma(p, i, Fs * W) - 1) % W)]
+          ELSE [p \in Pos(n * W, MaxN * MaxW) |-> Sigma(p, i, Fs * W)]
 
 IndInv ==
   /\ n \in 2..MaxN /\ k \in 2..MaxN /\ k <= n /\ f \in 1..MaxF /\ t \in 0..MaxT
@@ -182,29 +188,27 @@ RangeOf(b) == {b[p] : p \in DOMAIN b}
 IsPerm(buf, buf0) == DOMAIN buf = DOMAIN buf0 /\ RangeOf(buf) = RangeOf(buf0)
 InvPerm == IsPerm(rbuf, RBuf0(n, f)) /\ IsPerm(tbuf, TBuf0(n, W))
 
-\* row q (0-based) of the record buffer is an intact original row r and row q of the target buffer is r's target row
-RowIdAt(q) == rbuf[q * f + 1] \div 16
+\* row q (0-based) of the record buffer is an intact original row rho and row q of the target buffer is
+\* rho's target row (ViewWellFormed of KFold.tla)
+RowHolds(q, rho) ==
+  /\ \A c \in 1..MaxF : c <= f => rbuf[q * f + c] = Tag(rho, c - 1, f)
+  /\ \A c \in 1..MaxW : c <= W => tbuf[q * W + c] = Tag(rho, c - 1, W)
 InvRowsIntact ==
-  \A q \in 0..(MaxN - 1) : q < n =>
-     /\ RowIdAt(q) >= 0 /\ RowIdAt(q) < n
-     /\ \A c \in 1..MaxF : c <= f => rbuf[q * f + c] = RTag(RowIdAt(q), c - 1)
-     /\ \A c \in 1..MaxW : c <= W => tbuf[q * W + c] = TTag(RowIdAt(q), c - 1)
+  \A q \in 0..(MaxN - 1) : q < n => \E rho \in 0..(MaxN - 1) : rho < n /\ RowHolds(q, rho)
 
 Restored    == rbuf = RBuf0(n, f) /\ tbuf = TBuf0(n, W)
 InvBoundary == Boundary => Restored
 InvDone     == pc = "done" => Restored
 
-\* what the fit closure is handed at pc = "fit": rows Fs..n-1 hold every sample outside validation
-\* block i exactly once; rows 0..Fs-1 hold block i in order (TrainOk / ValidOk of KFold.tla as state predicates)
+\* what the fit closure is handed at pc = "fit" (TrainOk / ValidOk of KFold.tla as state predicates): rows
+\* 0..Fs-1 hold validation block i in order, every sample outside block i sits in some row >= Fs
+\* ("exactly once" is InvPerm: the tags are distinct)
+InBlock(r, b) == r >= b * Fs /\ r < b * Fs + Fs
 InvTrainNow ==
   pc = "fit" =>
-    /\ \A r \in 0..(MaxN - 1) : r < n =>
-         IF r \div Fs = i
-           THEN \A q \in 0..(MaxN - 1) : (q >= Fs /\ q < n) => RowIdAt(q) # r
-           ELSE /\ \E q \in 0..(MaxN - 1) : q >= Fs /\ q < n /\ RowIdAt(q) = r
-                /\ \A q1, q2 \in 0..(MaxN - 1) :
-                     (q1 >= Fs /\ q1 < n /\ q2 >= Fs /\ q2 < n /\ RowIdAt(q1) = r /\ RowIdAt(q2) = r) => q1 = q2
-    /\ \A q \in 0..(MaxN - 1) : q < Fs => RowIdAt(q) = i * Fs + q
+    \A r \in 0..(MaxN - 1) : r < n =>
+       IF InBlock(r, i) THEN RowHolds(r - i * Fs, r)
+       ELSE \E q \in 0..(MaxN - 1) : q >= Fs /\ q < n /\ RowHolds(q, r)
 
 Safety == InvPerm /\ InvRowsIntact /\ InvBoundary /\ InvDone /\ InvTrainNow
 
